@@ -201,10 +201,10 @@ ADDENDA = {
     'C05': " Later additions: a connected listener that stops reading, frames above pyzmq's zero-copy threshold and a transport with back pressure (simzmq flow control, message trackers): the synchronized consumer must get every frame as without the listener; OFP!SubHWM, liveness C05_ListenerCannotHold under FairStalled with the design mutation track_wait (TLC must find the lasso).",
     'C06': " Later additions: a required output next to a non-required consumer that keeps requesting (nothing beyond two in-flight publishes may be published while the required output is missing), a '?'-relay that numbers its own output restarted late behind a slow producer (must catch up at once).",
     'C07': " Later additions: a balanced rejoin that is a relay, a worker ending cleanly mid-stream (exits are part of OFP), blocking applications as splitter/workers/rejoin, stored schedules; the splitter publishing on the endpoint of a worker that has just left (outputs not recomputed after CLOSE) is modelled as the code does it and reached by a TLC reachability goal (X_NoStaleEndpoint) replayed with state comparison.",
-    'C08': " Later additions: runs that were ending cleanly (exit(), deadline, stop, obeyed clean exit) and then hit an exception in shutdown() are judged as ending by that error (run() raises, 'error' is announced); the protocol-level stage (OFP with Terminate / exit messages / CLOSE) with C08_NoSpuriousExit and C08_WholePipeline.",
+    'C08': " Later additions: runs that were ending cleanly (exit(), deadline, stop, obeyed clean exit) and then hit an exception in shutdown() are judged as ending by that error (run() raises, 'error' is announced); the protocol-level stage (OFP with Terminate / exit messages / CLOSE) with C08_NoSpuriousExit and C08_WholePipeline; the supervisor Filter.Runner (spec/life/Runner.tla: children's stop events and exit codes as separate steps, stop_exit policies, external stop; R_StopTellsAll, R_Retcodes, R_StepVerdict, R_StopSticky, R_NoneWaitsForAll, liveness R_Terminates) with TLC -simulate behaviours stepped through the real class and the state compared after every action.",
     'C09': " Later additions: data strings with unpaired surrogates, read-only frames derived from a render buffer that is rewritten afterwards, colour-declared frames whose existing JPEG is single-channel (independent reference decode), frames obtained by .rw from a decoded JPEG frame and drawn on before sending (Codec!decrw).",
     'C10': " Later additions: a stream of different jpg-backed frames whose blobs are freed while earlier pictures are kept (every image is the decoding of its own jpg).",
-    'C11': " Later additions: every parsed / normalised value is written into by the caller and the same text parsed again (results are fresh objects), white space at the inner slashes of MQTT source paths, pass-through options with falsy values.",
+    'C11': " Later additions: every parsed / normalised value is written into by the caller and the same text parsed again (results are fresh objects), white space at the inner slashes of MQTT source paths, pass-through options with falsy values, a VideoOut entry with an explicit params dictionary next to pass-through names (merged, not replaced).",
     'C12': " Later additions: id sources written 'id?!opt' / 'id??!opt'.",
     'C13': " Later additions: carriage returns inside line-mode records, bin records that are bytearrays and two-dimensional buffers, 128-byte cells; a writer that does not flush every record (write(..., flush=False), flush(): RollLog!wbuf - followers see an empty newest file that gets its records later; design mutation skip_empty), and every step formula is evaluated on every call (a toggle in ev: a read() that finds nothing twice in a row is no longer a stuttering step).",
     'C14': " Later additions: crash points at os.open/os.write/os.close of the head files as well as on the file-object path, saved positions of different lengths (128-byte cells), a reader constructed with file_size=1; a reader without autorefresh whose application calls refresh(), with log files deleted under the running reader (also the file it is in the middle of): model check, path cover replay, fault enumeration and TLC trace validation (HeadFile_*_ex, HeadFileCover_ex, TraceHeadFile_ex).",
